@@ -130,10 +130,12 @@ class ColorOnly(Problem):
             return True
         return i >= len(self.sec(cur[0], n, cur[1]))
 
-    def expected(self, line):
+    def expected(self, line, role="ctx"):
         t = term.strip(line.decode("utf-8", "replace"))
         tabs = self.ocfg.get("tabs", 0)
-        if tabs:
+        if tabs and role in ("minus", "plus", "ctx"):
+            # an explicit --tabs expands tabs in hunk lines; header lines (the tab before the timestamp of a
+            # `diff -u` file line) are not code
             t = t.replace("\t", " " * tabs)
         return t
 
@@ -160,7 +162,7 @@ class ColorOnly(Problem):
 
     def step(self, model, line, kind, out, ps):
         role = kind.split(":")[-1]
-        q = model + ((self.expected(line), role),)
+        q = model + ((self.expected(line, role), role),)
         return self._consume(q, out)
 
     def eof(self, model, out, ps):
